@@ -40,7 +40,7 @@ Print Assumptions C03_family_is_not_vacuous.
 
 Theorem C03_fragment_parses : forall types t f ln st,
   fragment_config types = true -> wf_b t = true -> (depth t <= f)%nat ->
-  tokenize_block types (S f) (text_of (spell t)) ln st = ([pre_of ln t], false, st_after st t).
+  tokenize_block types (S f) (text_of (spell t)) ln st = ([pre_of false ln t], false, st_after st t).
 Proof. exact fragment_tree_cfg. Qed.
 Print Assumptions C03_fragment_parses.
 
@@ -59,6 +59,31 @@ Print Assumptions C03_fragment_hypotheses.
    (tok_of: paragraphs holding their line as raw text, quotes, single-item lists with the marker's attributes) *)
 Theorem C03_fragment_token_tree : forall types span_types keep fn t f ln st,
   fragment_config types = true -> forallb kind_quiet (removelast span_types) = true -> wf_b t = true -> (depth t <= f)%nat ->
-  make_tokens span_types keep fn (fst (fst (tokenize_block types (S f) (text_of (spell t)) ln st))) = [tok_of t].
+  make_tokens span_types keep fn (fst (fst (tokenize_block types (S f) (text_of (spell t)) ln st))) = [tok_of false t].
 Proof. exact fragment_token_tree. Qed.
 Print Assumptions C03_fragment_token_tree.
+
+(* ... and for whole documents: Document(lines) gives the tokenizer fuel enough for every tree of the
+   fragment (the fuel is the longest line's length plus two; a tree nested d deep has a line of d + 2
+   characters or more), so the document parsed from the spelled text is exactly the tree written *)
+From Mistletoe Require Import Model.Tree Proofs.FragmentDoc.
+Theorem C03_fragment_fuel_suffices : forall t, wf_b t = true -> (S (depth t) <= depth_fuel (text_of (spell t)))%nat.
+Proof. exact fuel_suffices. Qed.
+Print Assumptions C03_fragment_fuel_suffices.
+
+Theorem C03_fragment_document : forall cfg t,
+  fragment_config (cfg_block cfg) = true -> forallb kind_quiet (removelast (cfg_span cfg)) = true -> wf_b t = true ->
+  fst (fst (parse_lines cfg (text_of (spell t)))) = Document [tok_of false t].
+Proof. exact fragment_document. Qed.
+Print Assumptions C03_fragment_document.
+
+Theorem C03_fragment_document_markdown : forall t,
+  wf_b t = true -> fst (fst (parse_lines cfg_markdown (text_of (spell t)))) = Document [tok_of true t].
+Proof. exact fragment_document_markdown. Qed.
+Print Assumptions C03_fragment_document_markdown.
+
+Theorem C03_fragment_document_configs :
+  forallb (fun c => fragment_config (cfg_block c) && forallb kind_quiet (removelast (cfg_span c)))
+          [cfg_html; cfg_html_nohtml; cfg_latex; cfg_mathjax; cfg_default] = true.
+Proof. exact document_configs. Qed.
+Print Assumptions C03_fragment_document_configs.
